@@ -56,6 +56,8 @@ def full_stage(chk, pid, tier, seed):
                 ids = [set(re.findall(r"\b(?:s|alt)\d+\b", f)) for f in fails]
                 if members and all(i and i <= members for i in ids):
                     obj["finding_shape"] = {"kind": "solver_output", "symptom": "group_members", "oracle": pid}
+                elif all(f.startswith("[alternates overcharged]") for f in fails):
+                    obj["finding_shape"] = {"kind": "solver_output", "symptom": "alternates_overcharged", "oracle": pid}
                 if chk.match_known(obj) is None:
                     nviol += 1
                 chk.violation(obj)
